@@ -4,6 +4,7 @@
 -/
 import GV.Model.Decode
 import GV.Proofs.Decoder
+import GV.Proofs.Vli
 namespace GV
 /-- continuation bytes only (bit 7 set) -/
 def AllCont (bs : Bytes) : Prop := ∀ b ∈ bs, b.toNat / 128 ≠ 0
@@ -44,5 +45,19 @@ theorem feed_cont (cfg : DecodeCfg) (c : Bytes) : ∀ (d : Decoder) (tail : Byte
     simp only [List.append_assoc, List.singleton_append] at this
     rw [this]
     simp
+
+/-- a Variable Byte Integer written as the standard prescribes is a run of at most three continuation bytes and a final byte -/
+theorem encVbi_split (v : Nat) : ∃ c last, Spec.encVbi v = c ++ [last] ∧ AllCont c ∧ c.length ≤ 3 := by
+  unfold Spec.encVbi
+  by_cases h1 : v < 128
+  · exact ⟨[], u8 v, by simp [h1], by intro b hb; simp at hb, by simp⟩
+  · by_cases h2 : v < 16384
+    · refine ⟨[u8 (v % 128 + 128)], u8 (v / 128), by simp [h1, h2], ?_, by simp⟩
+      intro b hb; simp at hb; subst hb; rw [u8_toNat]; omega
+    · by_cases h3 : v < 2097152
+      · refine ⟨[u8 (v % 128 + 128), u8 (v / 128 % 128 + 128)], u8 (v / 16384), by simp [h1, h2, h3], ?_, by simp⟩
+        intro b hb; simp at hb; rcases hb with hb | hb <;> subst hb <;> rw [u8_toNat] <;> omega
+      · refine ⟨[u8 (v % 128 + 128), u8 (v / 128 % 128 + 128), u8 (v / 16384 % 128 + 128)], u8 (v / 2097152), by simp [h1, h2, h3], ?_, by simp⟩
+        intro b hb; simp at hb; rcases hb with hb | hb | hb <;> subst hb <;> rw [u8_toNat] <;> omega
 
 end GV
